@@ -19,7 +19,7 @@ from hypothesis import strategies as st
 
 from pbt import scenes
 from pbt.engine import Sub
-from pbt.oracles.longsims import collect
+from pbt.oracles.longsims import collect, scaled
 
 ID = "C13"
 RULE = (
@@ -164,12 +164,12 @@ def _stratify(pool):
 
 
 def uniform_cases(ctx):
-    n = 16 if ctx.tier == "quick" else (144 if ctx.lane == "f32" else 288)
+    n = scaled(16 if ctx.tier == "quick" else (144 if ctx.lane == "f32" else 288), ctx)
     return _stratify(collect(uniform_strategy(ctx), n, ctx.seed, salt=f"C13u/{ctx.lane}/{ctx.tier}"))
 
 
 def gaussian_cases(ctx):
-    n = 4 if ctx.tier == "quick" else (48 if ctx.lane == "f32" else 60)
+    n = scaled(4 if ctx.tier == "quick" else (48 if ctx.lane == "f32" else 60), ctx)
     out = _stratify(collect(gaussian_strategy(ctx), n, ctx.seed, salt=f"C13g/{ctx.lane}/{ctx.tier}"))
     if ctx.tier == "thorough" and ctx.lane == "f32":
         out = [dict(c) for c in CORNER_CASES] + out
